@@ -55,5 +55,42 @@ theorem cmp_dual {a b} (wa : S.wf a) (wb : S.wf b) :
   rw [hB.cmp_naive a b wa wb, hB.cmp_naive b a wb wa, Lat.naive, Lat.naive]
   cases h1 : (L.merge a b).2 <;> cases h2 : (L.merge b a).2 <;> rfl
 
+theorem cmp_congr {a a' b b'} (wa : S.wf a) (wa' : S.wf a') (wb : S.wf b) (wb' : S.wf b')
+    (e1 : S.eqv a a') (e2 : S.eqv b b') : L.cmp a b = L.cmp a' b' := by
+  rw [hB.cmp_naive a b wa wb, hB.cmp_naive a' b' wa' wb', Lat.naive, Lat.naive,
+    hA.flag_congr wa wa' wb wb' e1 e2, hA.flag_congr wb wb' wa wa' e2 e1]
+
+theorem cmp_lt_iff {a b} (wa : S.wf a) (wb : S.wf b) :
+    L.cmp a b = some .lt ↔ (L.merge b a).2 = false ∧ (L.merge a b).2 = true := by
+  rw [hB.cmp_naive a b wa wb, Lat.naive]
+  cases (L.merge a b).2 <;> cases (L.merge b a).2 <;> simp
+
+theorem cmp_gt_iff {a b} (wa : S.wf a) (wb : S.wf b) :
+    L.cmp a b = some .gt ↔ (L.merge a b).2 = false ∧ (L.merge b a).2 = true := by
+  rw [hB.cmp_naive a b wa wb, Lat.naive]
+  cases (L.merge a b).2 <;> cases (L.merge b a).2 <;> simp
+
+theorem cmp_lt_trans {a b c} (wa : S.wf a) (wb : S.wf b) (wc : S.wf c)
+    (h1 : L.cmp a b = some .lt) (h2 : L.cmp b c = some .lt) : L.cmp a c = some .lt := by
+  rw [cmp_lt_iff hA hB wa wb] at h1
+  rw [cmp_lt_iff hA hB wb wc] at h2
+  rw [cmp_lt_iff hA hB wa wc]
+  have lab := (hA.flag b a wb wa).1 h1.1
+  have lbc := (hA.flag c b wc wb).1 h2.1
+  refine ⟨(hA.flag c a wc wa).2 (hA.leq_trans wa wb wc lab lbc), ?_⟩
+  cases hf : (L.merge a c).2
+  · -- c ≤ a ≤ b would give c ≤ b
+    have lca := (hA.flag a c wa wc).1 hf
+    have := (hA.flag b c wb wc).2 (hA.leq_trans wc wa wb lca lab)
+    rw [this] at h2; cases h2.2
+  · rfl
+
+theorem cmp_gt_trans {a b c} (wa : S.wf a) (wb : S.wf b) (wc : S.wf c)
+    (h1 : L.cmp a b = some .gt) (h2 : L.cmp b c = some .gt) : L.cmp a c = some .gt := by
+  have d1 := cmp_dual hA hB wa wb; rw [h1] at d1
+  have d2 := cmp_dual hA hB wb wc; rw [h2] at d2
+  have := cmp_lt_trans hA hB wc wb wa d2 d1
+  have d3 := cmp_dual hA hB wc wa; rw [this] at d3; exact d3
+
 end LawfulB
 end HvLat
